@@ -29,7 +29,33 @@ def expr(key, op, vals=(), n=0):
 
 
 def alloc_of(t, o):
-    return {"cpu": (o["cpuOv"] or t["cpu"]) - t["ovCpu"], "mem": (o["memOv"] or t["mem"]) - t["ovMem"], "pods": t["pods"]}
+    """allocatable of one offering: capacity (with capacity override) - overhead (with overhead override), per resource"""
+    return {"cpu": (o.get("cpuOv") or t["cpu"]) - (o.get("ohCpu") or t["ovCpu"]),
+            "mem": (o.get("memOv") or t["mem"]) - (o.get("ohMem") or t["ovMem"]), "pods": o.get("podsOv") or t["pods"]}
+
+
+def add_overrides(rng, t):
+    """per-offering overrides: capacity-only, overhead-only or both, on one / some / all offerings (an overhead-only type never
+    touches the capacity-override code path; offerings of one type may end up in several allocatable groups)"""
+    kind = rng.choice(["cap", "cap", "oh", "oh", "both", "mixed"])
+    offs = t["offerings"]
+    some = rng.choice([offs[:1], rng.sample(offs, max(1, len(offs) // 2)), offs])
+    for o in some:
+        k = kind if kind != "mixed" else rng.choice(["cap", "oh", "both"])
+        if k in ("cap", "both"):
+            o["cpuOv"] = rng.choice([t["cpu"] // 2, t["cpu"] * 2])
+            o["memOv"] = rng.choice([0, t["mem"] // 2])
+            o["podsOv"] = rng.choice([0, 0, 2])
+        if k in ("oh", "both"):
+            o["ohCpu"] = rng.choice([50, t["cpu"] // 2, t["cpu"] // 2 + 100])
+            o["ohMem"] = rng.choice([0, 0, t["mem"] // 2])
+        if rng.random() < 0.7:
+            o["available"] = True
+        a = alloc_of(t, o)
+        if a["cpu"] < 100:
+            o["ohCpu"] = 50
+        if a["mem"] < 128:
+            o["ohMem"] = 0
 
 
 def gen_catalog(rng, profile):
@@ -51,7 +77,9 @@ def gen_catalog(rng, profile):
                                        "available": rng.random() < 0.8, "rid": "", "rcap": 0, "cpuOv": 0, "memOv": 0})
         if not t["offerings"]:
             t["offerings"].append({"zone": "a", "ct": "od", "price": base, "available": True, "rid": "", "rcap": 0, "cpuOv": 0, "memOv": 0})
-        if rng.random() < 0.25:
+        if rng.random() < 0.3:
+            add_overrides(rng, t)
+        elif rng.random() < 0.15:
             # capacity-override offering: same type, different capacity in one zone
             o = copy.deepcopy(rng.choice(t["offerings"]))
             o["cpuOv"] = rng.choice([cpu // 2, cpu * 2])
@@ -142,8 +170,10 @@ def gen_nodes(rng, types, pools, dss, profile):
                 labels["team"] = rng.choice(["x", "y"])
             if rng.random() < 0.3:
                 n["taints"].append(dict(TAINT))
-            if rng.random() < 0.3:
-                del labels["ct"]
+            # statically joined nodes may lack any well-known label (a missing label satisfies only NotIn / DoesNotExist)
+            for k in ("zone", "ct", "it", "arch", "gen"):
+                if rng.random() < 0.3:
+                    del labels[k]
         else:
             labels["pool"] = pool["name"]
             tv = pool_value(rng, pool, "team")
@@ -155,6 +185,10 @@ def gen_nodes(rng, types, pools, dss, profile):
                 n["ephemeral"] = rng.random() < 0.5
             if o["rid"]:
                 labels["rid"] = o["rid"]
+        if stage != "unmanaged":
+            for k in ("arch", "gen"):      # provider-specific / optional labels can be missing on managed nodes too
+                if rng.random() < 0.08:
+                    del labels[k]
         r = rng.random()
         if r < 0.12:
             n["marked"] = True
@@ -290,7 +324,13 @@ def node_archetypes(rng, types):
     def vol_two(p): p["vols"] = ["c-ab", "c-ac"]
     def host_sel(p): p["sel"]["host"] = "n0"
     def pool_sel(p): p["sel"]["pool"] = rng.choice(["p0", "p1"])
-    return [sel_zone, two_terms, three_terms, notin_spot, team_in, team_sel, team_notin, team_dne, team_exists, gen_gt, gen_lt,
+    def ct_sel(p): p["sel"]["ct"] = rng.choice(["od", "spot"])
+    def zone_notin(p): p["terms"] = [[expr("zone", "NotIn", [rng.choice(ZONES)])]]
+    def zone_dne(p): p["terms"] = [[expr("zone", "DoesNotExist")], [expr("zone", "In", [rng.choice(ZONES)])]]
+    def arch_exists(p): p["terms"] = [[expr("arch", "Exists")]]
+    def arch_sel(p): p["sel"]["arch"] = rng.choice(["amd64", "arm64"])
+    def gen_sel(p): p["sel"]["gen"] = str(rng.choice([1, 2, 3, 4]))
+    return [ct_sel, zone_notin, zone_dne, arch_exists, arch_sel, gen_sel, sel_zone, two_terms, three_terms, notin_spot, team_in, team_sel, team_notin, team_dne, team_exists, gen_gt, gen_lt,
             pref_zone_req_arch, pref_two, it_in, tolerate, tolerate_all, port80, port80ip, port81, port9100, vol_b, vol_ab, vol_ac,
             vol_any, vol_two, host_sel, pool_sel]
 
